@@ -75,13 +75,20 @@ public:
 
     template <typename D, bool TR>
     virtual_2d_locator(virtual_2d_locator<D, TR> const &loc, coord_t y_step)
-        : y_pos_(loc.pos(), point_t(loc.step().x, loc.step().y * y_step), loc.deref_fn())
+        // the steps are kept in source coordinates: the y axis of a transposed locator runs along the source's x
+        : y_pos_(loc.pos()
+        , IsTransposed ?
+            point_t(loc.step().x * y_step, loc.step().y) :
+            point_t(loc.step().x, loc.step().y * y_step)
+        , loc.deref_fn())
     {}
 
     template <typename D, bool TR>
     virtual_2d_locator(virtual_2d_locator<D, TR> const& loc, coord_t x_step, coord_t y_step, bool transpose = false)
         : y_pos_(loc.pos()
-        , transpose ?
+        // the steps are kept in source coordinates: which of them x_step scales depends on whether the
+        // resulting locator is transposed, not on whether this construction transposes
+        , IsTransposed ?
             point_t(loc.step().x * y_step, loc.step().y * x_step) :
             point_t(loc.step().x * x_step, loc.step().y * y_step)
         , loc.deref_fn())
